@@ -51,10 +51,12 @@ fn op_strategy() -> impl Strategy<Value = Op> {
 
 pub fn strategy(tier: Tier) -> BoxedStrategy<Case> {
     let (maxdim, maxops) = tier.pick((8usize, 60usize), (16, 120));
-    (1..=maxdim, 1..=maxdim, proptest::collection::vec(op_strategy(), 0..=maxops), prop_oneof![12 => Just(0u8), 1 => Just(1u8), 1 => Just(2u8)])
+    (1..=maxdim, 1..=maxdim, proptest::collection::vec(op_strategy(), 0..=maxops), prop_oneof![1700 => Just(0u8), 150 => Just(1u8), 150 => Just(2u8), 1 => Just(3u8), 1 => Just(4u8)])
         .prop_map(|(rows, cols, ops, big)| match big {
             1 => Case { rows: 130, cols: cols.min(4), ops, big },
             2 => Case { rows: rows.min(4), cols: 130, ops, big },
+            3 => Case { rows: 65_600, cols: cols.min(3), ops: ops.into_iter().take(16).collect(), big },
+            4 => Case { rows: rows.min(3), cols: 65_600, ops: ops.into_iter().take(16).collect(), big },
             _ => Case { rows, cols, ops, big },
         })
         .boxed()
@@ -97,14 +99,21 @@ pub fn case_from_bytes(data: &[u8]) -> Case {
 }
 
 fn compare(h: &SparseMatrix, model: &BTreeSet<(usize, usize)>, rows: usize, cols: usize, step: usize) -> Check {
+    let (rl, cl): (Vec<usize>, Vec<usize>) = ((0..rows).collect(), (0..cols).collect());
+    compare_lines(h, model, rows, cols, step, &rl, &cl)
+}
+
+/// the comparison restricted to the given rows and columns (all of them, except for the 65 600-line
+/// matrices, where only the lines the generator can touch are walked; iter_all is always complete)
+fn compare_lines(h: &SparseMatrix, model: &BTreeSet<(usize, usize)>, rows: usize, cols: usize, step: usize, row_list: &[usize], col_list: &[usize]) -> Check {
     ensure!(h.num_rows() == rows && h.num_cols() == cols, "dimensions", "step {step}: dimensions changed to {}x{}", h.num_rows(), h.num_cols());
-    for r in 0..rows {
-        for c in 0..cols {
+    for &r in row_list {
+        for &c in col_list {
             ensure!(h.contains(r, c) == model.contains(&(r, c)), "contains", "step {step}: contains({r},{c}) = {} but the set says {}", h.contains(r, c), model.contains(&(r, c)));
         }
     }
     let mut from_rows = BTreeSet::new();
-    for r in 0..rows {
+    for &r in row_list {
         let v: Vec<usize> = h.iter_row(r).copied().collect();
         let s: BTreeSet<usize> = v.iter().copied().collect();
         ensure!(s.len() == v.len(), "iter_row-duplicate", "step {step}: iter_row({r}) has duplicates: {v:?}");
@@ -116,7 +125,7 @@ fn compare(h: &SparseMatrix, model: &BTreeSet<(usize, usize)>, rows: usize, cols
         }
     }
     let mut from_cols = BTreeSet::new();
-    for c in 0..cols {
+    for &c in col_list {
         let v: Vec<usize> = h.iter_col(c).copied().collect();
         let s: BTreeSet<usize> = v.iter().copied().collect();
         ensure!(s.len() == v.len(), "iter_col-duplicate", "step {step}: iter_col({c}) has duplicates: {v:?}");
@@ -127,7 +136,7 @@ fn compare(h: &SparseMatrix, model: &BTreeSet<(usize, usize)>, rows: usize, cols
             from_cols.insert((r, c));
         }
     }
-    ensure!(from_rows == from_cols, "views", "step {step}: row and column views disagree");
+    ensure!(from_rows == from_cols || row_list.len() != rows || col_list.len() != cols, "views", "step {step}: row and column views disagree");
     let all: Vec<(usize, usize)> = h.iter_all().collect();
     let alls: BTreeSet<(usize, usize)> = all.iter().copied().collect();
     ensure!(alls.len() == all.len(), "iter_all-duplicate", "step {step}: iter_all has duplicates");
@@ -145,9 +154,26 @@ pub fn check(case: &Case, p: &mut Probe) -> Check {
     let mut deleted_cols: BTreeSet<usize> = BTreeSet::new();
     let mut nontrivial = false;
     const ALIASED: [usize; 10] = [0, 1, 2, 63, 64, 65, 66, 127, 128, 129];
+    const ALIASED16: [usize; 10] = [0, 65_536, 5, 65_541, 6, 65_542, 63, 65_599, 65_535, 100];
     let big = case.big;
-    let ri = move |a: u16| -> usize { if big == 1 { ALIASED[idx(a, ALIASED.len())] } else { idx(a, rows) } };
-    let ci = move |a: u16| -> usize { if big == 2 { ALIASED[idx(a, ALIASED.len())] } else { idx(a, cols) } };
+    let ri = move |a: u16| -> usize {
+        match big {
+            1 => ALIASED[idx(a, ALIASED.len())],
+            3 => ALIASED16[idx(a, ALIASED16.len())],
+            _ => idx(a, rows),
+        }
+    };
+    let ci = move |a: u16| -> usize {
+        match big {
+            2 => ALIASED[idx(a, ALIASED.len())],
+            4 => ALIASED16[idx(a, ALIASED16.len())],
+            _ => idx(a, cols),
+        }
+    };
+    // lines walked by the comparison after every step
+    let row_list: Vec<usize> = if big == 3 { ALIASED16.to_vec() } else { (0..rows).collect() };
+    let col_list: Vec<usize> = if big == 4 { ALIASED16.to_vec() } else { (0..cols).collect() };
+    p.class_if(big >= 3, "dimension-65600-aliased-indices");
     p.class_if(big != 0, "dimension-130-aliased-indices");
     let cell = |a: u16, b: u16, existing: bool, model: &BTreeSet<(usize, usize)>| -> (usize, usize) {
         if existing && !model.is_empty() {
@@ -234,7 +260,7 @@ pub fn check(case: &Case, p: &mut Probe) -> Check {
                 }
             }
         }
-        compare(&h, &model, rows, cols, step)?;
+        compare_lines(&h, &model, rows, cols, step, &row_list, &col_list)?;
         // bookkeeping for classes
         for e in before.difference(&model) {
             deleted_rows.insert(e.0);
@@ -307,7 +333,7 @@ pub fn property() -> Property {
             }),
             Box::new(Sub {
             name: "model",
-            rule: "histories of 0..=60 (thorough 120) operations {insert, remove, toggle, clear_row/col, set_row/col, insert_row/col} on shapes 1..=8 (16) squared, one history in seven on a matrix with 130 rows (or columns) whose generated indices agree modulo 64 (0, 1, 2, 63..66, 127..129), half of the cell operations aimed at entries currently present; after every step every query of the real matrix is compared with a BTreeSet model; non-trivial = a deletion that removed something followed by an insertion into the same row or column; distinct by digest of the whole history",
+            rule: "histories of 0..=60 (thorough 120) operations {insert, remove, toggle, clear_row/col, set_row/col, insert_row/col} on shapes 1..=8 (16) squared, one history in seven on a matrix with 130 rows (or columns) whose generated indices agree modulo 64 (0, 1, 2, 63..66, 127..129), one in 1000 on a matrix with 65 600 rows (or columns) and indices that agree modulo 2^16 (short histories; only the touched lines and the all-entries iterator are walked), half of the cell operations aimed at entries currently present; after every step every query of the real matrix is compared with a BTreeSet model; non-trivial = a deletion that removed something followed by an insertion into the same row or column; distinct by digest of the whole history",
             cases: |t| t.pick(300_000, 10_000_000),
             strategy,
             check,
